@@ -84,6 +84,16 @@ CLAIMED = {
    text="TLC checks on all strings of <= 5 (quick) / <= 7 (thorough) tokens over { ( ) , : ' a List( } that the modelled parser never indexes outside its input and ends inside it. Every such string, all strings over the query and JSON alphabets, 31 untyped Go values and every truncation / single-character delete / replace / insert of the valid encodings of the VT values are fed to 17 reader entry points, ParseQueryParams, the generated unmarshalers, the raw-record decoder and the untyped reader of both module generations: each call must return. Hostile bytes are injected at every peer-controlled position of an HTTP exchange: the server must answer without 5xx, recovered panic or stack trace and run resource code only for 2xx, the client call must return.",
    note="a verdict is only ever a panic, a hang or a 5xx observed on the real code; acceptance of ill-formed strings is recorded (model conformance) but not judged; no coverage-guided fuzzing",
    design="5/C04"),
+ "C02": dict(
+   technique="TLA+ spec Call.tla composing the generated client's request construction with Router.tla's declarative routing table on the VT resource tree (TLC: every method's wire request is routed back to exactly that method with the caller's keys; no unspecified cell is relied on); every (method, argument content, client configuration, mounting) exported and replayed through the generated client, a recording transport, a real restli.Server and generated MockResources built by reflection",
+   text="TLC checks for all 41 methods of the 8 VT resources that ClientWire(method) is routed by the protocol table to that method and exports each with 6 argument contents x 3 tunnelling thresholds x strict/lenient x with/without context path x 3 mountings (8856 calls). The harness regenerates the bindings, invokes the generated client by reflection with arguments generated by type, routes the request in-process into a real server on which the generated RegisterResource registered a generated MockResource whose function fields record what they receive and return scripted results; it compares the method that ran, every argument (keys, params, paging, body) and every result (entity, elements with paging and metadata, action result, created id and status, per-key batch results and errors) field by field, and the wire (verb, method header, path shape, default status, error header, tunnelling) with the specification's row.",
+   note="arguments are generated by type, not enumerated by the model; read-only / create-only fields are left unset here (C07 covers them); ServeMux mountings skip keys that are empty or contain '/'; in-memory transport; v2 generator",
+   design="5/C02"),
+ "C16": dict(
+   technique="TLA+ spec Batch.tla (AddKey with hash buckets and key-part equality, Send, adversarial Reply, Decode through the key locator) model-checked by TLC; every terminal behaviour exported and replayed on the real key set (with a key type colliding as the model's HashOf), the generated complex-key client and the generated string-key client with a transport that returns the model's reply",
+   text="TLC checks that duplicates under key equality (params ignored) are rejected before anything is sent, that each id is sent once, that every reply entry is filed under the caller's own key of the same key part with none lost or duplicated, and that a reply naming an unrequested key fails, for every list of <= 2 keys over 3 key parts (two colliding) x params and every adversarial reply of the bound. Each behaviour is replayed: AddKey / LocateOriginalKey on a colliding key type (pointer identity), BatchGet on the generated collCK client and BatchDelete on the generated collStr client with the reply re-encoded with other params and alternative escapes; result maps must be keyed by the caller's own key values (pointer identity for complex keys).",
+   note="replies holding one key twice in a map are not conforming and not generated; quick tier samples 30000 of the 115000 behaviours by seed",
+   design="5/C16"),
 }
 
 NOT_YET = {}
